@@ -24,7 +24,7 @@ from . import c07 as C07
 from . import c18 as C18
 
 PROP = "C08"
-RULE = ("(6%: structured 'samebase' inputs -- several conditions over ONE base variable in different worlds with equal / different values, both listing orders, or an outcome sharing its base variable with a condition; one batch case: >= 60 multi-condition inputs run unpatched in fresh interpreters under PYTHONHASHSEED 0,1,2 (thorough: 400 inputs, 8 seeds); 7%: structured 'observational' inputs -- P(y | x) over factual variables, the static part of the two proved fragments; 8%: structured 'bichain' inputs -- 3-4 nodes on a chain of bidirected edges, one outcome, two conditions) random ADMGs with 2-5 nodes x pairs (outcome conjunction, non-empty condition conjunction) with disjoint keys drawn "
+RULE = ("(9%: three structured streams -- 'wide': 2-3 outcomes x 2-3 conditions (mostly >= 5 keys) over up to THREE counterfactual worlds on ladder-like graphs with 4-5 nodes (6 in the thorough tier), half of them 'twins' with >= 2 base variables shared between outcomes and conditions; 'outbase': the same base variable twice among the OUTCOMES; 'unidcond': conditioning events that ID* refuses (bow, Y_x = y, X = x'); 20% of the random pairs are drawn with up to three worlds; 6%: structured 'samebase' inputs -- several conditions over ONE base variable in different worlds with equal / different values, both listing orders, or an outcome sharing its base variable with a condition; one batch case: >= 60 multi-condition inputs run unpatched in fresh interpreters under PYTHONHASHSEED 0,1,2 (thorough: 400 inputs, 8 seeds); 7%: structured 'observational' inputs -- P(y | x) over factual variables, the static part of the two proved fragments; 8%: structured 'bichain' inputs -- 3-4 nodes on a chain of bidirected edges, one outcome, two conditions) random ADMGs with 2-5 nodes x pairs (outcome conjunction, non-empty condition conjunction) with disjoint keys drawn "
         "from <=2 counterfactual worlds plus the factual world (shared/distinct subscripts, x / x' values, "
         "self-interventions); the examples of test_idc_star / Shpitser-Pearl / Tikka and all past witnesses first; a "
         "stream of impossible conditions (violating effectiveness). Every case is run under every order of the worlds and "
@@ -218,6 +218,115 @@ def _gen_samebase(rng: random.Random):
     return g, outs, conds
 
 
+def _sparse_graph(rng: random.Random, n, p_di=0.3, p_bi=0.12, chain=True):
+    """acyclic ADMG on n nodes along a shuffled order; `chain`: consecutive nodes of the order are joined by a directed edge
+    (a ladder A -> B -> C -> ...), so that every node has an ancestor / descendant and the graph is never edgeless"""
+    order = list(range(n))
+    rng.shuffle(order)
+    di = [[order[i], order[i + 1]] for i in range(n - 1) if chain and rng.random() < 0.8]
+    for i in range(n):
+        for j in range(i + 2, n):
+            if rng.random() < p_di:
+                di.append([order[i], order[j]])
+    bi = [[order[i], order[j]] for i in range(n) for j in range(i + 1, n) if rng.random() < p_bi]
+    return {"nodes": sorted(order), "di": di, "bi": bi}, order
+
+
+def _gen_wide(rng: random.Random, tier):
+    """structured: MANY KEYS -- 2-3 outcomes x 2-3 conditions (>= 5 keys in most cases) over up to THREE counterfactual worlds plus the
+    factual world on a ladder-like graph with 4-5 nodes (6 in the thorough tier); with probability 1/2 a 'twin': two or three base
+    variables B each observed in a world w (outcomes) and in another world / factually (conditions), i.e. >= 2 bases shared across the
+    bar; otherwise keys drawn at random from the pool of worlds, repeated bases allowed on either side"""
+    n = rng.choice([4, 4, 5, 5, 6] if tier != "quick" else [4, 4, 4, 5])
+    g, order = _sparse_graph(rng, n, p_di=0.25, p_bi=0.1)
+    star = lambda p_=0.3: "p" if rng.random() < p_ else "m"    # noqa: E731
+    nw = rng.choice([1, 2, 2, 3, 3])
+    worlds = []
+    for _ in range(nw):
+        w = tuple(sorted((x, star()) for x in rng.sample(order[:max(2, n - 1)], rng.choice([1, 1, 2]))))
+        if rng.random() < 0.3 and worlds:
+            w = tuple((x, "p" if s_ == "m" else "m") for x, s_ in worlds[0])
+        if w not in worlds:
+            worlds.append(w)
+    pool = worlds + [()]
+    if rng.random() < 0.5:
+        w = worlds[0]
+        free = [v_ for v_ in order if v_ not in {x for x, _ in w}]
+        bases = rng.sample(free, min(len(free), rng.choice([2, 2, 3])))
+        other = rng.choice([w2 for w2 in pool if w2 != w])
+        outs = [[K.mkvar(b, w), star()] for b in bases]
+        conds = [[K.mkvar(b, other if b not in {x for x, _ in other} else ()), star()] for b in bases]
+        if rng.random() < 0.5:
+            outs, conds = conds, outs
+    else:
+        def draw(k):
+            ev = {}
+            for _ in range(k):
+                w = rng.choice(pool)
+                cand = [v_ for v_ in order if v_ not in {x for x, _ in w}] or order
+                var = K.mkvar(rng.choice(cand), w)
+                ev[C.enc(var)] = [var, star()]
+            return list(ev.values())
+        outs, conds = draw(rng.choice([2, 3])), draw(rng.choice([2, 3, 3]))
+    keys = {C.enc(v_) for v_, _ in outs}
+    conds = [c for c in conds if C.enc(c[0]) not in keys]
+    rng.shuffle(outs)
+    rng.shuffle(conds)
+    return g, outs, conds
+
+
+def _gen_outbase(rng: random.Random):
+    """structured: the same base variable TWICE AMONG THE OUTCOMES (Y_w = y, Y = y / y' -- the exchange step rebuilds the outcome
+    dict and can collapse two keys) with one or two conditions on ancestors of Y, one of which rule 2 can exchange"""
+    n = rng.choice([3, 4, 4])
+    g, order = _sparse_graph(rng, n, p_di=0.3, p_bi=0.15)
+    y = order[-1] if rng.random() < 0.7 else order[-2]
+    anc = [v_ for v_ in order if v_ != y]
+    star = lambda p_=0.4: "p" if rng.random() < p_ else "m"    # noqa: E731
+    x = rng.choice(anc)
+    w1 = ((x, star()),)
+    w2 = rng.choice([(), ((x, "p" if w1[0][1] == "m" else "m"),)])
+    a = star()
+    outs = [[K.mkvar(y, w1), a], [K.mkvar(y, w2), a if rng.random() < 0.5 else ("p" if a == "m" else "m")]]
+    zs = rng.sample(anc, min(len(anc), rng.choice([1, 2])))
+    conds = [[K.mkvar(z, rng.choice([(), w1]) if z != x else ()), star()] for z in zs]
+    rng.shuffle(outs)
+    return g, outs, conds
+
+
+def _gen_unidcond(rng: random.Random):
+    """structured: a conditioning event that ID* REFUSES (line 1 of IDC* swallows `Unidentifiable`): the bow X -> Y, X <-> Y with the
+    conditions Y_x = y, X = x' (line 8 of ID* finds the conflict), outcomes elsewhere or on a third copy"""
+    n = rng.choice([3, 4])
+    order = list(range(n))
+    rng.shuffle(order)
+    x, y, r = order[0], order[1], order[2:]
+    di, bi = [[x, y]], [[x, y]]
+    for v_ in r:
+        for u in (x, y):
+            t = rng.random()
+            if t < 0.3:
+                di.append([u, v_])
+            elif t < 0.45:
+                di.append([v_, u]) if u == x else None
+        if rng.random() < 0.2:
+            bi.append([y, v_])
+    di = [e for e in di if e]
+    g = {"nodes": sorted(order), "di": di, "bi": bi}
+    s_ = "p" if rng.random() < 0.5 else "m"
+    o = "p" if s_ == "m" else "m"
+    conds = [[K.mkvar(y, ((x, s_),)), "m"], [K.mkvar(x), o]]
+    if rng.random() < 0.3:
+        conds.append([K.mkvar(r[0]), "m"])
+    outs = [[K.mkvar(rng.choice(r), rng.choice([(), ((x, s_),)])), "m" if rng.random() < 0.7 else "p"]]
+    if rng.random() < 0.3:
+        outs.append([K.mkvar(y, ((x, o),)), "m"])
+    keys = {C.enc(v_) for v_, _ in outs}
+    conds = [c for c in conds if C.enc(c[0]) not in keys]
+    rng.shuffle(conds)
+    return g, outs, conds
+
+
 def _gen_observational(rng: random.Random):
     """structured: an observational conditional query P(y | x) -- factual variables, unstarred values, disjoint names: the
     static part of the fragment of idcstar_sound_fragment (whether rule 2 applies / something is marginalised varies)"""
@@ -246,12 +355,20 @@ def cases(rng: random.Random, tier: str):
             if not ({C.enc(v_) for v_, _ in outs} & {C.enc(v_) for v_, _ in conds}):
                 out.append({"g": g, "outcomes": outs, "conditions": conds, "seed": rng.randrange(1 << 30), "gen": "samebase"})
                 continue
+        r_ = rng.random()
+        if r_ < 0.09:
+            gen, (g, outs, conds) = ("wide", _gen_wide(rng, tier)) if r_ < 0.045 else \
+                ("outbase", _gen_outbase(rng)) if r_ < 0.07 else ("unidcond", _gen_unidcond(rng))
+            if outs and conds and not ({C.enc(v_) for v_, _ in outs} & {C.enc(v_) for v_, _ in conds}) and \
+                    len({C.enc(v_) for v_, _ in outs}) == len(outs) and len({C.enc(v_) for v_, _ in conds}) == len(conds):
+                out.append({"g": g, "outcomes": outs, "conditions": conds, "seed": rng.randrange(1 << 30), "gen": gen})
+                continue
         if rng.random() < 0.07:
             g, outs, conds = _gen_observational(rng)
             out.append({"g": g, "outcomes": outs, "conditions": conds, "seed": rng.randrange(1 << 30), "gen": "observational"})
             continue
         g = K.rand_admg(rng, 2, 5 if big else 4)
-        pr = K.rand_event_pair(rng, g, max_worlds=2)
+        pr = K.rand_event_pair(rng, g, max_worlds=3 if rng.random() < 0.2 else 2)
         if pr is None:
             continue
         outs, conds = pr
@@ -697,6 +814,14 @@ def _judge(case, res, exc, n_models, strategy=None):
         if shared and S.check_estimand(g, jt, expr[1], case.get("seed", 0), n_models=n_models) is None:
             return msg + (" [numerator right; the final normalisation est.conditional([c.get_base() for c in conditions]) works "
                           "with base names, but an outcome and a condition are copies of the same variable]"), "conditional:shared-base"
+    if kind == "value" and not isinstance(expr, str) and expr[0] == "frac":
+        onames = {int(var[1]) for var, _ in case["outcomes"]}
+        if any(int(n_) in onames for var, _ in case["conditions"] for n_, _ in var[4]) and \
+                S.check_estimand(g, jt, expr[1], case.get("seed", 0), n_models=n_models) is None:
+            return msg + (" [numerator right; a CONDITION lives in a world that sets an OUTCOME variable (X_y = x with Y = y among the "
+                          "outcomes): the joint estimand was simplified using the outcome's value (consistency merges X_y into X given "
+                          "Y = y), so summing it over the outcome variable -- what est.conditional does -- is not P(conditions)]"), \
+                "conditional:condition-in-outcome-world"
     return msg, kind
 
 
@@ -893,12 +1018,13 @@ def _same_wrong_answer_as_model(case, r):
 
 
 COARSE = ("F11", "normalisation:subscript", "inherited", "reassociation", "exchange:polarity", "exchange:conditions", "exchange:separation",
-          "conditional:shared-base")
+          "conditional:shared-base", "conditional:condition-in-outcome-world")
 
 
 def _coarse_key(case, r):
     """finding key of the failures that are explained by an identified broken step / another listed defect"""
-    if r["kind"] in ("F11", "normalisation:subscript", "reassociation", "conditional:shared-base") or \
+    if r["kind"] in ("F11", "normalisation:subscript", "reassociation", "conditional:shared-base",
+                     "conditional:condition-in-outcome-world") or \
             r["kind"].startswith("exchange:"):
         return json.dumps([r["kind"]])
     if r["kind"] == "inherited":
